@@ -160,8 +160,8 @@ def numeric_case(draw):
                     else:
                         op = draw(st.sampled_from([">", ">=", "=="])) if above else draw(st.sampled_from(["<", "<=", "=="]))
                 txt, u2, exact = in_other_unit(thr)
-                if place == "on" and not exact and op in ("<", ">", "!="):
-                    # only == <= >= are tolerant; the strict operators and != at an equality reached through a unit
+                if place == "on" and not exact and op in ("<", ">"):
+                    # == != <= >= are tolerant; the strict operators at an equality reached through a unit
                     # conversion are decided by float rounding: write the threshold in the definition unit instead
                     txt, u2 = (str(thr) if is_int else fmt(thr)), None
                 # the threshold may live in another node of the same type (node-vs-node comparison, converted in place)
